@@ -1107,19 +1107,24 @@ fn run_structure(cx: &mut Ctx, st: &LpgStore, l: &Live) {
     let tc = to_btree_u(&alg::triangle_count(st));
     let tt = alg::total_triangles(st);
     let cc = alg::clustering_coefficient(st);
-    let ok = tc == tri && tt == total && to_btree_u(&cc.triangle_counts) == tri && cc.total_triangles == total;
-    cx.brute("triangles", String::new(), ok, format!("expected per-node {:?} total {}", tri, total), format!("triangle_count={:?} total_triangles={} clustering.total={}", tc, tt, cc.total_triangles), None);
-    // local clustering coefficient = triangles / C(deg,2) over distinct neighbours other than the node itself
+    let ok = tc == tri && tt == total;
+    // decided in Coq: per-node counts and the total against the executable specification (tri_cert)
+    cx.cert("triangles", String::new(), format!("c_tri {} {} {}", g, umap_term(&tc), tt), Some(ok), format!("triangle_count={:?} total_triangles={}", tc, tt), None);
+    // the combined result must repeat the two functions' answers
     let lc = to_btree_f(&alg::local_clustering_coefficient(st));
+    let same = to_btree_u(&cc.triangle_counts) == tc && cc.total_triangles == tt && to_btree_f(&cc.coefficients) == lc;
+    cx.brute("clustering-consistent", String::new(), same, "clustering_coefficient() differs from triangle_count()/total_triangles()/local_clustering_coefficient()".into(), format!("clustering.total={} counts={:?}", cc.total_triangles, to_btree_u(&cc.triangle_counts)), None);
+    // local clustering coefficient = triangles / C(deg,2) over distinct neighbours other than the node itself
     let mut lok = lc.len() == ns.len();
     for &v in ns {
         let k = adj[&v].iter().filter(|&&x| x != v).count() as u64;
         let want = if k < 2 { 0.0 } else { tri[&v] as f64 / ((k * (k - 1) / 2) as f64) };
-        if lc.get(&v).map_or(true, |x| (x - want).abs() > 1e-12) {
+        if lc.get(&v).map_or(true, |x| x.to_bits() != want.to_bits() && !(*x == 0.0 && want == 0.0)) {
             lok = false;
         }
     }
-    cx.brute("local_clustering", String::new(), lok, "local coefficient differs from triangles / C(k,2)".into(), format!("{:?}", lc), None);
+    let lct = coq::list(lc.iter().map(|(k, x)| format!("({},{})", k, coq::zu(x.to_bits()))));
+    cx.cert("local_clustering", String::new(), format!("c_lcc {} {}", g, lct), Some(lok), format!("{:?}", lc), None);
     // k-core: core(v) = max k such that v lies in a subgraph whose every node has >= k distinct neighbours inside it
     // (a self-loop makes a node its own neighbour, as in the implementation's adjacency sets)
     let mut core: BTreeMap<u64, usize> = BTreeMap::new();
@@ -1141,11 +1146,13 @@ fn run_structure(cx: &mut Ctx, st: &LpgStore, l: &Live) {
     let kc = alg::kcore_decomposition(st);
     let got: BTreeMap<u64, usize> = kc.core_numbers.iter().map(|(k, v)| (k.as_u64(), *v)).collect();
     let maxc = core.values().copied().max().unwrap_or(0);
-    let mut k2 = ids(&alg::k_core(st, 2));
+    let k2u = ids(&alg::k_core(st, 2));
+    let mut k2 = k2u.clone();
     k2.sort();
     let want2: Vec<u64> = core.iter().filter(|(_, c)| **c >= 2).map(|(v, _)| *v).collect();
     let ok = got == core && kc.max_core == maxc && k2 == want2;
-    cx.brute("kcore", String::new(), ok, format!("expected core numbers {:?} max {}", core, maxc), format!("core_numbers={:?} max_core={} k_core(2)={:?}", got, kc.max_core, k2), None);
+    let ct = coq::list(got.iter().map(|(k, v)| format!("({},{})", k, v)));
+    cx.cert("kcore", String::new(), format!("c_kcore {} {} {} {}", g, ct, kc.max_core, zlist(&k2u)), Some(ok), format!("core_numbers={:?} max_core={} k_core(2)={:?}", got, kc.max_core, k2), None);
     // bridges: adjacent pairs whose removal (all edges between them) increases the number of components
     let base = ig.ucomp_without(None, None);
     let mut want: BTreeSet<(u64, u64)> = BTreeSet::new();
@@ -1158,7 +1165,8 @@ fn run_structure(cx: &mut Ctx, st: &LpgStore, l: &Live) {
     }
     let br = alg::bridges(st);
     let got: BTreeSet<(u64, u64)> = br.iter().map(|(a, b)| (a.as_u64().min(b.as_u64()), a.as_u64().max(b.as_u64()))).collect();
-    cx.brute("bridges", String::new(), got == want && br.len() == want.len(), format!("expected {:?}", want), format!("{:?}", br.iter().map(|(a, b)| (a.as_u64(), b.as_u64())).collect::<Vec<_>>()), None);
+    let brt = coq::list(br.iter().map(|(a, b)| format!("({},{})", a.as_u64(), b.as_u64())));
+    cx.cert("bridges", String::new(), format!("c_bridges {} {}", g, brt), Some(got == want && br.len() == want.len()), format!("{:?}", br.iter().map(|(a, b)| (a.as_u64(), b.as_u64())).collect::<Vec<_>>()), None);
     // articulation points: nodes whose removal increases the number of components among the others
     let mut wa: BTreeSet<u64> = BTreeSet::new();
     for &v in ns {
@@ -1170,7 +1178,8 @@ fn run_structure(cx: &mut Ctx, st: &LpgStore, l: &Live) {
         }
     }
     let ap: BTreeSet<u64> = alg::articulation_points(st).iter().map(|n| n.as_u64()).collect();
-    cx.brute("articulation_points", String::new(), ap == wa, format!("expected {:?}", wa), format!("{:?}", ap), None);
+    let apl: Vec<u64> = ap.iter().copied().collect();
+    cx.cert("articulation_points", String::new(), format!("c_artic {} {}", g, zlist(&apl)), Some(ap == wa), format!("{:?}", ap), None);
     // degree centrality
     let dc = alg::degree_centrality(st);
     let mut dok = true;
@@ -1190,12 +1199,52 @@ fn run_pagerank(cx: &mut Ctx, st: &LpgStore, l: &Live, rng: &mut Rng) {
     let pr = alg::pagerank(st, damping, iters, 1e-10);
     let sum: f64 = pr.values().sum();
     let ok = if l.nodes.is_empty() { pr.is_empty() } else { pr.len() == l.nodes.len() && (sum - 1.0).abs() < 1e-9 && pr.values().all(|&x| x >= 0.0 && x.is_finite()) };
-    cx.brute("pagerank", format!("damping={} iters={}", damping, iters), ok, format!("sum={} (float; support only)", sum), format!("{:?}", to_btree_f(&pr)), None);
+    // decided in Coq on the exact values of the bit patterns (pr_cert): finite, non-negative, exact sum within 1e-9 of 1
+    let prt = coq::list(to_btree_f(&pr).iter().map(|(k, x)| format!("({},{})", k, coq::zu(x.to_bits()))));
+    cx.cert("pagerank", format!("damping={} iters={}", damping, iters), format!("c_pagerank {} {}", gterm(l, true), prt), Some(ok), format!("{:?}", to_btree_f(&pr)), None);
     // community detection: every node is labelled (no specification beyond that in C19)
     let lp = alg::label_propagation(st, 20);
     let lv = alg::louvain(st, 1.0);
     let ok = lp.len() == l.nodes.len() && lv.communities.len() == l.nodes.len() && l.nodes.iter().all(|v| lp.contains_key(&nid(*v)) && lv.communities.contains_key(&nid(*v)));
     cx.brute("community-total", String::new(), ok, "a node has no community".into(), String::new(), None);
+}
+
+/// PageRank on graphs where binary64 arithmetic is exact (n and every non-zero out-degree a power of two,
+/// dyadic damping, few iterations): the implementation's scores must denote exactly the rationals of the
+/// Coq transcription (chk_pagerank), including the early exit on the tolerance.
+fn pr_exact_ok(l: &Live) -> bool {
+    let n = l.nodes.len();
+    n > 0 && n.is_power_of_two() && n <= 8 && l.nodes.iter().all(|v| {
+        let o = l.edges.iter().filter(|e| e.s == *v).count();
+        o == 0 || (o.is_power_of_two() && o <= 8)
+    })
+}
+fn run_pagerank_exact(cx: &mut Ctx, st: &LpgStore, l: &Live, rng: &mut Rng) {
+    if !pr_exact_ok(l) {
+        return;
+    }
+    let g = gterm(l, true);
+    for _ in 0..3 {
+        let damping = *rng.pick(&[0.5, 0.25, 0.75, 0.0, 1.0, 0.5]);
+        let iters = *rng.pick(&[0usize, 1, 2, 3, 6]);
+        let tol = *rng.pick(&[1e-10, 0.0, 0.125, 0.03125, 1.0]);
+        let pr = alg::pagerank(st, damping, iters, tol);
+        let prt = coq::list(to_btree_f(&pr).iter().map(|(k, x)| format!("({},{})", k, coq::zu(x.to_bits()))));
+        let args = format!("{} {} {} {}", g, coq::zu(damping.to_bits()), coq::zu(tol.to_bits()), iters);
+        cx.corr("model-pagerank", format!("damping={} iters={} tol={}", damping, iters, tol), format!("chk_pagerank {} {}", args, prt), Some(format!("show_pagerank {}", args)), format!("{:?}", to_btree_f(&pr)));
+    }
+}
+/// graphs for the exact PageRank comparison: 1, 2, 4 or 8 nodes, out-degrees 0, 1, 2 or 4 (self-loops and parallel edges allowed)
+fn gen_pr_spec(r: &mut Rng) -> GSpec {
+    let n = *r.pick(&[1usize, 2, 4, 4, 8, 8]);
+    let mut edges = vec![];
+    for s in 0..n {
+        let o = *r.pick(&[0usize, 1, 1, 2, 2, 4]);
+        for _ in 0..o {
+            edges.push(ESpec { s, d: r.below(n as u64) as usize, w: Raw::Missing });
+        }
+    }
+    GSpec { n, edges, del_edges: vec![], del_nodes: vec![], via_db: r.chance(1, 4) }
 }
 
 // ---- core's ShortestPathOperator (hop counts)
@@ -1494,6 +1543,7 @@ fn run_graph(out: &mut Out, spec: &GSpec, profile: u64, rng: &mut Rng, thorough:
     }
     run_structure(&mut cx, st, &l);
     run_pagerank(&mut cx, st, &l, rng);
+    run_pagerank_exact(&mut cx, st, &l, rng);
     if let Some(arc) = h.arc() {
         let mut op_pairs: Vec<(u64, u64)> = pairs.iter().copied().take(3).collect();
         op_pairs.dedup();
@@ -1535,6 +1585,13 @@ const CORPUS: &[(&str, u64)] = &[
     ("n=2;e=1>0:1;de=;dn=;db=0", 0),
     ("n=2;e=0>0:1,1>0:4;de=;dn=;db=0", 0),
     ("n=4;e=0>1:1,1>0:1,1>2:1,2>1:1,0>2:1,2>0:1,2>3:1,3>2:1;de=;dn=;db=0", 0),
+    // PageRank with exact binary64 arithmetic: dangling node, self-loop, parallel edges (n = 4)
+    ("n=4;e=0>1:_,0>2:_,1>2:_,2>0:_,2>2:_;de=;dn=;db=0", 2),
+    ("n=2;e=0>1:_;de=;dn=;db=0", 2),
+    // two triangles sharing a node (articulation point that is no bridge end), plus a pendant edge
+    ("n=6;e=0>1:1,1>2:1,2>0:1,2>3:1,3>4:1,4>2:1,4>5:1;de=;dn=;db=0", 0),
+    // K4 with a doubled edge and a self-loop: core numbers 3 (the self-loop node 4), 4 triangles
+    ("n=4;e=0>1:1,0>2:1,0>3:1,1>2:1,1>3:1,2>3:1,3>2:1,0>0:1;de=;dn=;db=0", 0),
     // two bridges, an articulation chain, a triangle
     ("n=6;e=0>1:1,1>2:1,2>0:1,2>3:1,3>4:1,4>5:1,5>4:1;de=;dn=;db=0", 0),
 ];
@@ -1564,6 +1621,25 @@ fn main() {
     for (s, p) in CORPUS {
         let g = GSpec::parse(s);
         run_graph(&mut out, &g, *p, &mut rng, true);
+    }
+    // graphs on which PageRank's float arithmetic is exact (model = implementation, bit for bit)
+    for _ in 0..(a.cases / 3).max(8) {
+        let g = gen_pr_spec(&mut rng);
+        let mut r2 = rng.fork();
+        let res = catch(std::panic::AssertUnwindSafe(|| {
+            let (h, l) = build(&g);
+            let st = h.store();
+            let (mut tags, nt) = tags_of(&l, &g, 2);
+            tags.push("pagerank-exact".into());
+            let mut cx = Ctx { out: &mut out, spec: g.show(), tags, nt };
+            if store_view_matches(st, &l) {
+                run_pagerank_exact(&mut cx, st, &l, &mut r2);
+                run_pagerank(&mut cx, st, &l, &mut r2);
+            }
+        }));
+        if let Err(m) = res {
+            out.emit(&Case { kind: "panic".into(), input: g.show(), oracle: Oracle::Fail, msg: format!("panic: {}", m), nontrivial: true, ..Default::default() });
+        }
     }
     for k in 0..a.cases {
         let profile = match k % 8 {
